@@ -6,9 +6,9 @@ explicit, every note carries its symbolic duration - so the expected result of l
 from fractions import Fraction
 
 FEATURES = ["pickup", "chord", "two_voices", "two_staves", "tie_barline", "tie_chain", "tie_cross_voice", "grace", "grace_chain", "grace_run_below", "underfilled_measures", "slur", "slur_chain", "slur_overlap", "slur_barline",
-            "tuplet", "dynamics", "wedge", "wedge_overlap", "dashes", "words", "words_quantified", "pedal", "pedal_barline", "tempo", "tempo_mid", "repeat", "ending", "fermata_note", "fermata_barline", "fermata_inner_barline",
+            "tuplet", "dynamics", "wedge", "wedge_overlap", "dashes", "words", "words_quantified", "constant_directions_of_three_families", "pedal", "pedal_barline", "tempo", "tempo_mid", "repeat", "ending", "fermata_note", "fermata_barline", "fermata_inner_barline",
             "articulation", "articulation_order", "fingering", "stem", "unpitched", "rests", "key_change", "ts_change", "clef_change", "divisions_change",
-            "divisions_change_mid", "dotted", "page", "two_parts", "group", "nested_group", "nested_group_first", "voice_gap", "polyphony", "polyphony_two_voices",
+            "divisions_change_mid", "dotted", "page", "two_parts", "group", "nested_group", "nested_group_first", "voice_gap", "polyphony", "polyphony_two_voices", "polyphony_with_voices_1_and_3",
             "measure_names", "irregular_measure", "accidentals", "duplicate_ids"]
 
 SYM = {Fraction(4): ("whole", 0), Fraction(3): ("half", 1), Fraction(2): ("half", 0), Fraction(3, 2): ("quarter", 1), Fraction(1): ("quarter", 0),
@@ -129,7 +129,12 @@ def build(features, pid="P1", seed=0):
     else:
         # (underfilled: nothing sounds in the last beat of the first full measure, and no rest stands there)
         note("n2", m1 + 2, 1 if "underfilled_measures" in f else 2, "E", 4, stem_direction=("up" if "stem" in f else None))
-    if "polyphony" in f or "polyphony_two_voices" in f:
+    if "polyphony_with_voices_1_and_3" in f:
+        # voice numbers with a hole (1 and 3, as after deleting a voice; notation programs also number 1, 2, 5, 6): the note that has to
+        # leave voice 1 must get a number that is not in use
+        note("pv3a", m1, 4, "C", 3, voice=3, staff=1)
+        note("pv3b", m2, m3 - m2, "D", 3, voice=3, staff=1)
+    if "polyphony" in f or "polyphony_two_voices" in f or "polyphony_with_voices_1_and_3" in f:
         # a note overlapping the next onset of its own voice: has to move to a free voice on export
         note("px", m1 + 1, 2, "B", 4)
     m2len = m3 - m2
@@ -262,6 +267,14 @@ def build(features, pid="P1", seed=0):
     if "words" in f:
         direction("dolce", m1)
         direction("some unknown words", m3)
+    if "constant_directions_of_three_families" in f:
+        # open-ended loudness, tempo and articulation marks interleaved: each lasts until the next mark OF ITS OWN family
+        part.add(sc.ConstantLoudnessDirection("p"), B.t(m1))
+        part.add(sc.ConstantTempoDirection("allegro", raw_text="Allegro"), B.t(m1))
+        part.add(sc.ConstantArticulationDirection("legato"), B.t(m1 + 2))
+        part.add(sc.ConstantLoudnessDirection("f"), B.t(m2))
+        part.add(sc.ConstantArticulationDirection("staccato"), B.t(m2 + 2))
+        part.add(sc.ConstantTempoDirection("adagio", raw_text="Adagio"), B.t(m3))
     if "words_quantified" in f:
         # printed texts that are more than the normalised term: a quantifier before it, two terms joined by a conjunction
         # (built by hand, not through the library's own parser: the printed text is the datum under test)
